@@ -3,6 +3,7 @@ package main
 import (
 	"fmt"
 	"os"
+	"time"
 
 	"verif/lib"
 
@@ -82,7 +83,11 @@ type chanProbe struct {
 // their channel in a struct field or a loop-external variable and store a fresh channel in it for every call.
 var c11SharedVar chan events.Event
 
-func newProbe(buffered bool) *chanProbe {
+func newProbe(buffered bool) *chanProbe { return newProbeKind(buffered, false) }
+
+// newProbeKind: slow = the consumer of the unbuffered channel pauses 70 ms after the 2nd, 5th, 8th ... event it
+// receives (an injected delay on the receiving side; the verdict is not a matter of time: every event must still arrive)
+func newProbeKind(buffered, slow bool) *chanProbe {
 	p := &chanProbe{buffered: buffered}
 	if buffered {
 		p.ch = make(chan events.Event, 64)
@@ -91,8 +96,13 @@ func newProbe(buffered bool) *chanProbe {
 		p.done = make(chan struct{})
 		ch := p.ch
 		go func() {
+			n := 0
 			for e := range ch {
 				p.got = append(p.got, e)
+				n++
+				if slow && n%3 == 2 {
+					time.Sleep(70 * time.Millisecond)
+				}
 			}
 			p.sawClose = true
 			close(p.done)
@@ -196,12 +206,12 @@ func c11Scenarios() []c11Scenario {
 func c11(tier string) {
 	ctx := lib.NewCtx("C11", tier)
 	ctx.Level = "fault_enumeration"
-	ctx.Rule = "complete enumeration of (failure point x entry point x channel kind): 7 pipeline stages x {injected error, injected panic} through the verif hook + 14 input-driven failures (YAML, structure, unknown prefix, bad path, Rego syntax, unsafe built-in, truncated / empty / non-JSON data, JSON-LD rejections, evaluation conflict) + 6 successes (incl. node-less documents and source maps) x 6 entry-point shapes (Validate, ValidateWithConfiguration, CompileProfile alone, CompileProfile then ValidateCompiled on the same channel, ValidateCompiled, ValidateCompiledWithConfiguration) x {buffered channel, unbuffered channel with consumer, nil}; an online checker accepts exactly the prefixes of the expected word; closedness is decided by a second close under recover; milestones are regenerated from the drained events; " +
+	ctx.Rule = "complete enumeration of (failure point x entry point x channel kind): 7 pipeline stages x {injected error, injected panic} through the verif hook + 14 input-driven failures (YAML, structure, unknown prefix, bad path, Rego syntax, unsafe built-in, truncated / empty / non-JSON data, JSON-LD rejections, evaluation conflict) + 6 successes (incl. node-less documents and source maps) x 6 entry-point shapes (Validate, ValidateWithConfiguration, CompileProfile alone, CompileProfile then ValidateCompiled on the same channel, ValidateCompiled, ValidateCompiledWithConfiguration) x {buffered channel, unbuffered channel with a prompt consumer, unbuffered channel with a consumer that pauses 70 ms every third event, nil}; an online checker accepts exactly the prefixes of the expected word; closedness is decided by a second close under recover; milestones are regenerated from the drained events; " +
 		"non-trivial & distinct = cell of the matrix in which a channel was supplied"
 	ctx.Assumptions = []string{"no milestone is demanded for RegoCompilation (the public Operation enumeration has no such member)", "hook faults fire right after the stage's Start event: the expected trace is exactly the word up to that Start"}
 	scs := c11Scenarios()
 	entries := []string{"Validate", "ValidateWithConfiguration", "CompileProfile", "CompileProfile+ValidateCompiled", "ValidateCompiled", "ValidateCompiledWithConfiguration"}
-	chans := []string{"buffered", "unbuffered", "nil"}
+	chans := []string{"buffered", "unbuffered", "nil", "unbuffered-slow-consumer"}
 	total := len(scs) * len(entries) * len(chans)
 	extra := ctx.N(0, 20) // thorough: random profiles / data per success cell
 	if !ctx.IsShard() {
@@ -222,7 +232,7 @@ func c11(tier string) {
 		var pr *chanProbe
 		var chp *chan events.Event
 		if chanKind != "nil" {
-			pr = newProbe(chanKind == "buffered")
+			pr = newProbeKind(chanKind == "buffered", chanKind == "unbuffered-slow-consumer")
 			chp = &c11SharedVar
 		}
 		first, last := 0, 6
